@@ -38,6 +38,61 @@ package search
 //@   ensures forall(y, 0, len(so), keyCmp(cachedScoring, cachedDesc, i, j, y) == 0) || exists(x, 0, len(so), keyCmp(cachedScoring, cachedDesc, i, j, x) != 0 && forall(y, 0, x, keyCmp(cachedScoring, cachedDesc, i, j, y) == 0) && result == keyCmp(cachedScoring, cachedDesc, i, j, x), x)
 //@   loop 0: invariant forall(y, 0, iter, keyCmp(cachedScoring, cachedDesc, i, j, y) == 0)
 
+// ---- copies of a sort order (C09: every shard of an alias gets a copy of the request's sort) ----
+
+// r is a faithful copy of s: same dynamic type and every field equal (fields taken from the struct
+// types, so a field added later is covered).
+//@ spec sortCopyOf(r SearchSort, s SearchSort) bool = r != nil && \
+//@     implies(typeis(s, *SortField), typeis(r, *SortField) && fieldsEqual(r.(*SortField), s.(*SortField))) && \
+//@     implies(typeis(s, *SortDocID), typeis(r, *SortDocID) && fieldsEqual(r.(*SortDocID), s.(*SortDocID))) && \
+//@     implies(typeis(s, *SortScore), typeis(r, *SortScore) && fieldsEqual(r.(*SortScore), s.(*SortScore))) && \
+//@     implies(typeis(s, *SortGeoDistance), typeis(r, *SortGeoDistance) && fieldsEqual(r.(*SortGeoDistance), s.(*SortGeoDistance)))
+
+//@ iface SearchSort.Copy(s)
+//@   props C09
+//@   mode int
+//@   requires s != nil
+//@   ensures fresh(result) && sortCopyOf(result, s)
+
+//@ func SortField.Copy
+//@   props C09
+//@   implements SearchSort.Copy
+//@ func SortDocID.Copy
+//@   props C09
+//@   implements SearchSort.Copy
+//@ func SortScore.Copy
+//@   props C09
+//@   implements SearchSort.Copy
+//@ func SortGeoDistance.Copy
+//@   props C09
+//@   implements SearchSort.Copy
+
+//@ func SortOrder.Copy
+//@   props C09
+//@   mode int
+//@   requires forall(k, 0, len(so), so[k] != nil)
+//@   ensures len(result) == len(so) && fresh(result) && forall(k, 0, len(so), sortCopyOf(result[k], so[k]))
+//@   loop 0: invariant len(rv) == len(so) && fresh(rv) && forall(k, 0, iter, sortCopyOf(rv[k], so[k]))
+
+//@ iface SearchSort.RequiresScoring(s)
+//@   mode int
+//@ iface SearchSort.Descending(s)
+//@   mode int
+
+//@ func SortOrder.CacheIsScore
+//@   props C09 C06
+//@   mode int
+//@   requires forall(k, 0, len(so), so[k] != nil)
+//@   ensures len(result) == len(so) && fresh(result)
+//@   loop 0: invariant len(rv) == iter && fresh(rv)
+
+//@ func SortOrder.CacheDescending
+//@   props C09 C06
+//@   mode int
+//@   requires forall(k, 0, len(so), so[k] != nil)
+//@   ensures len(result) == len(so) && fresh(result)
+//@   loop 0: invariant len(rv) == iter && fresh(rv)
+
 // ---- lemmas (ghost functions, verified against the contracts above) ----
 
 //@ func verifAssert
